@@ -76,7 +76,13 @@ func (c *clientService) Add(obj Actor) (uint32, error) {
 
 	filter := func(hdr *net.Header) (matched bool, keep bool) {
 		if hdr.Service == c.serviceID && hdr.Object == id {
-			return true, true
+			// an object which is being removed does not receive
+			// messages anymore: Remove forgets the object first
+			// and closes its handler afterwards.
+			c.objectsMutex.RLock()
+			_, ok := c.objectsHandlers[id]
+			c.objectsMutex.RUnlock()
+			return ok, true
 		}
 		return false, true
 	}
@@ -90,9 +96,12 @@ func (c *clientService) Add(obj Actor) (uint32, error) {
 		obj.OnTerminate()
 	}
 
+	// the endpoint calls the filter with its own lock held: the
+	// handler is registered before objectsMutex is taken.
+	handlerID := c.context.EndPoint().MakeHandler(filter, queue, closer)
 	c.objectsMutex.Lock()
 	defer c.objectsMutex.Unlock()
-	c.objectsHandlers[id] = c.context.EndPoint().MakeHandler(filter, queue, closer)
+	c.objectsHandlers[id] = handlerID
 	return id, nil
 }
 
